@@ -1640,6 +1640,15 @@ func (r *gRun) call(i *ssa.Call) {
 					nl.App = append(nl.App, more.Pre...)
 				}
 				nl.App = append(nl.App, more.App...)
+				if nl.Tok {
+					// a token list of a parsed tree holds the tokens that were in the source: a nil element
+					// makes the printer emit its default lexeme, text that the source does not contain (C02)
+					for _, e := range append(append([]gv{}, more.Pre...), more.App...) {
+						if r.isNil(e) {
+							r.fail("niltok", i.Pos(), "a nil token is appended to a token list (%s): the printer substitutes a default lexeme for it", describeG(e))
+						}
+					}
+				}
 			case gNil:
 			default:
 				r.fail("subset", i.Pos(), "append of %s", describeG(args[1]))
